@@ -21,6 +21,7 @@ func init() {
 	generators["c04"] = genC04
 	generators["c03"] = genC03
 	generators["c03seq"] = genC03Seq
+	generators["c14resp"] = genC14Resp
 	generators["c16b"] = genC16b
 	runners["resp"] = runResp
 	runners["serve"] = runServe
@@ -102,6 +103,12 @@ func runResp(t *Toks) string {
 	carrier := *carriers[pick]
 	carrier.ID = id
 	c, req := requestFromTyped(&carrier, nil, &buf)
+	// the options are passed as a slice with one spare slot behind them, as a caller does who hands
+	// a prefix of a longer option list to a constructor: that slot is the caller's, not the callee's
+	full := make([]gldap.Option, len(opts)+1)
+	copy(full, opts)
+	full[len(opts)] = gldap.WithDiagnosticMessage("sentinel-of-the-caller")
+	opts = full[:len(opts)]
 	var resp gldap.Response
 	type coded interface {
 		SetResultCode(int)
@@ -137,7 +144,21 @@ func runResp(t *Toks) string {
 	if err != nil {
 		return "HARNESS-ERROR writer"
 	}
+	{
+		// the caller's spare slot after the constructor call: a general response made from the
+		// whole list must show the sentinel (the last option wins)
+		before := buf.Len()
+		if err := w.Write(req.NewResponse(full...)); err != nil {
+			return "WRITEERR"
+		}
+		probe := parseResponseCanon(buf.Bytes()[before:], 0)
+		buf.Truncate(before)
+		if !strings.Contains(probe, hxs("sentinel-of-the-caller")) {
+			return "OPTIONS-SLICE-MODIFIED " + kind + " constructor changed the caller's option slice beyond the options it was given"
+		}
+	}
 	var segs []string
+	var lastCtrls []gldap.Control
 	writeNow := func() bool {
 		before := buf.Len()
 		if err := w.Write(resp); err != nil {
@@ -179,6 +200,26 @@ func runResp(t *Toks) string {
 				bind.SetControls(cs...)
 			} else if done != nil {
 				done.SetControls(cs...)
+			}
+			lastCtrls = cs
+		case "mutctrls":
+			// the control values handed over by the last "ctrls" are changed in place (exported
+			// fields, SetCookie); SetControls is NOT called again
+			tcs := parseControls(t)
+			for k, tc := range tcs {
+				if k >= len(lastCtrls) {
+					break
+				}
+				switch c := lastCtrls[k].(type) {
+				case *gldap.ControlPaging:
+					c.PagingSize = tc.Size
+					c.SetCookie(tc.Cookie)
+				case *gldap.ControlString:
+					c.Criticality = tc.Crit
+					c.ControlValue = tc.Val
+				case *gldap.ControlManageDsaIT:
+					c.Criticality = tc.Crit
+				}
 			}
 		case "addattr":
 			name := t.Str()
@@ -585,6 +626,46 @@ func (g *Gen) setterStr(kind string) string {
 
 var respKinds = []string{"general", "bind", "ext", "done", "entry", "modify"}
 
+// mutatedControls: the same controls after the handler has filled them in
+func mutatedControls(cs []TControl) []TControl {
+	ms := make([]TControl, len(cs))
+	for k, c := range cs {
+		switch c.Kind {
+		case "paging":
+			c.Cookie = append(append([]byte{}, c.Cookie...), 'm')
+			c.Size = c.Size/2 + 1
+		case "str":
+			c.Crit = !c.Crit
+			c.Val += "m"
+		case "managedsait":
+			c.Crit = !c.Crit
+		}
+		ms[k] = c
+	}
+	return ms
+}
+
+// C14, response direction: Bind and SearchDone responses with 1..6 controls of every kind, written
+// as set, or after the handler changed the control values in place
+func genC14Resp(g *Gen) {
+	r := g.rng
+	for i := 0; i < g.n; i++ {
+		kind := []string{"bind", "done"}[i%2]
+		cs := g.controls()
+		for len(cs) == 0 {
+			cs = g.controls()
+		}
+		sets := []string{"ctrls " + ctrlsStr(cs)}
+		if r.Intn(3) == 0 {
+			sets = append(sets, "write")
+		}
+		if r.Bool() {
+			sets = append(sets, "mutctrls "+ctrlsStr(mutatedControls(cs)))
+		}
+		g.emit("resp", fmt.Sprint(g.msgID()), kind, hx(g.str()), "0", listStr(sets))
+	}
+}
+
 func genC04(g *Gen) {
 	r := g.rng
 	for i := 0; i < g.n; i++ {
@@ -598,6 +679,21 @@ func genC04(g *Gen) {
 			if r.Intn(4) == 0 {
 				sets = append(sets, "write") // written, then modified further and written again
 			}
+		}
+		if (kind == "bind" || kind == "done") && r.Intn(4) == 0 {
+			// the handler hands its controls to the response and fills them in afterwards (a paging
+			// cookie is known only once the page is produced): what is written is what the
+			// controls hold at the time of the Write
+			cs := g.controls()
+			if len(cs) == 0 {
+				cs = []TControl{{Kind: "paging", Size: 2, Cookie: []byte("c")}, {Kind: "str", OID: "1.2.3.9", Val: "v"}}
+			}
+			sets = append(sets, "ctrls "+ctrlsStr(cs))
+			if r.Bool() {
+				sets = append(sets, "write")
+			}
+			ms := mutatedControls(cs)
+			sets = append(sets, "mutctrls "+ctrlsStr(ms))
 		}
 		g.emit("resp", fmt.Sprint(g.msgID()), kind, hx(g.str()), listStr(opts), listStr(sets))
 	}
